@@ -155,7 +155,7 @@ def run_property(prop, tier, seed, obs, info, workers=None, solver_timeout_ms=No
         tot["max_ticks"] = max(tot["max_ticks"], st.get("max_ticks", 0))
         if len(samples) < 6 and r.get("sample"):
             samples.append({"obligation": o.name, "harness": "%s.%s" % (o.module, o.func), "params": _short(o.params),
-                            "symbolic_inputs": r["sample"]["inputs"], "first_decisions": r["sample"]["decisions"],
+                            "symbolic_inputs": r["sample"]["inputs"], "first_decisions": r["sample"]["decisions"], "one_query_smt2": r["sample"].get("smt2"),
                             "paths": r["paths"], "checks": {k: v for k, v in list(r["checks"].items())[:8]}})
 
     for fid, f in sorted(printed_known.items()):
